@@ -161,7 +161,7 @@ def _opkey(a):
 
 
 def has_identical_calls(case):
-    if case.get("sql"):
+    if case.get("sql") or case.get("ddb"):
         return False
     ks = [_opkey(a) for a in case["acts"] if a["k"] not in ("rebase", "get")]
     return len(set(ks)) < len(ks)
